@@ -5,6 +5,7 @@ CONSTANTS
   Caps = {1, 2, 3}
   MaxLen = 20
   NilPuts = TRUE
+  Canon = FALSE
   Conc = FALSE
   Threads = {0}
 INIT Init
